@@ -20,7 +20,7 @@ type c13Case struct {
 }
 
 var c13Tokens = []string{"'", "\"", "\\", "%", "%%", "%v", "%d", "%s", "{", "}", "{{", "}}", "{{x}}", "\n", "\t", "`", "$", "$node", "$message", "$result", "#", ":", ",", "[", "\\n", "\\\"", "é", "日", "😀", "<", ">", "&", "|"}
-var c13Slots = []string{"profile", "validation", "message", "message+placeholder", "message+2placeholders", "in", "containsAll", "containsSome", "pattern-free-message-absent-value"}
+var c13Slots = []string{"profile", "validation", "message", "message+placeholder", "message+2placeholders", "in", "containsAll", "containsSome", "pattern-free-message-absent-value", "message+same-placeholder-twice", "message+same-placeholder-3-spellings"}
 
 const c13Base = "Abc def"
 
@@ -46,6 +46,10 @@ func c13Build(assign map[string]string) (profile string, names map[string]string
 		msg = assign["message+placeholder"] + " {{ex.name}}"
 	case assign["message+2placeholders"] != "":
 		msg = "{{ ex.name }}" + assign["message+2placeholders"] + "{{ex.missing}}"
+	case assign["message+same-placeholder-twice"] != "":
+		msg = "{{ex.name}} " + assign["message+same-placeholder-twice"] + " {{ex.name}}"
+	case assign["message+same-placeholder-3-spellings"] != "":
+		msg = "{{ex.name}}" + assign["message+same-placeholder-3-spellings"] + "{{ ex.name }}{{ex.name}} and {{ex.missing}}{{ex.missing}}"
 	case assign["pattern-free-message-absent-value"] != "":
 		msg = assign["pattern-free-message-absent-value"] + " {{ex.missing}} end"
 	}
